@@ -205,7 +205,7 @@ def run(ctx):
         rep.extra["negative_controls"] = dict(total=len(neg), rejected=len(neg) - len(done), kinds=sorted(set(kinds)))
         if done:
             raise core.Machinery("corrupted traces were accepted (%s): the trace specification does not bind" % wrongly)
-    elif accepted:
+    elif accepted and not rep.violations:
         raise core.Machinery("no negative control could be built")
     # (4) Evaluator accuracy (fraction of correct predictions under the selected label mode)
     from synapgrad.nn.utils.train import Evaluator
